@@ -296,7 +296,9 @@ def r6(ctx):
         ctx.check(good, 'R6', 'heartbeat-step-is-the-ingestion-loop', w, 'the heartbeat\'s ingestion step runs state::ingest_stable_blocks_into_utxoset under no condition of its own',
                   'the heartbeat\'s ingestion step can skip the stability decision (%s)' % why)
     rows = [r for r in table(prog, f) if P.agg(variant='Done')(r[1])]
-    good = len(rows) == 1 and P.exactly(rows[0][2], [P.is_(P.call(UB + 'peek', P.anything), 'None')])
+    # the Paused arms of the two ingestion calls return early: they guard the Done row off the dominator chain
+    paused_arm = lambda c: c[0] == 'hidden' and any(isinstance(x, tuple) and x[0] == 'call' and x[1].rsplit('::', 1)[-1] in ('ingest_block_continue', 'ingest_block') for x in walk(c[1]))
+    good = len(rows) == 1 and P.exactly([c for c in rows[0][2] if not paused_arm(c)], [P.is_(P.call(UB + 'peek', P.anything), 'None')])
     ctx.check(good, 'R6', 'done-only-when-none', f.where(rows[0][0]) if rows else f, 'Done is returned only when peek finds no stable child', 'Done rows: %s' % describe_table(rows))
 
 
